@@ -4,6 +4,8 @@ from harness.scen import call, LOOK_TO, GO, THATS_ALL, ROUNDS, STAND
 
 class C07(scen.WorldProp):
     id = "C07"
+    fuzz_kinds = {"ring", "call"}
+    fuzz_times = False
     lean_module = "Wheatley.Props.C07"
     theorems = ["Wheatley.C07.stand_law",
                 "Wheatley.C07.stops_only_before_handstroke",
@@ -42,6 +44,12 @@ class C07(scen.WorldProp):
                 spec["start_index"] = rng.choice([0, 0, 1, -1])
             else:
                 spec = gens.rand_comp_spec(rng, stage=N, calls=False, nrows=rng.randint(3, 9))
+            if kind != "comp" and rng.random() < 0.3:
+                # a custom start row (not rounds): the touch opens with it, "Rounds" returns to it,
+                # "That's all" ends in real rounds
+                bells = list(range(1, rng.choice([spec["stage"], N]) + 1))
+                rng.shuffle(bells)
+                spec["start_row"] = "".join(gens.BELLS[b - 1] for b in bells)
             udi = rng.random() < 0.5
             sar = rng.random() < 0.35
             ps = rng.choice([60, 90])
